@@ -35,7 +35,7 @@ type Map = BTreeMap<Key, Val>;
 pub const WORKERS: [usize; 9] = [1, 2, 3, 5, 6, 7, 12, 33, 64];
 
 /// the region table from first principles: the first `64 % n` workers get one more root child
-fn regions(n: usize) -> Vec<(usize, usize)> {
+pub(crate) fn regions(n: usize) -> Vec<(usize, usize)> {
     let mut v = Vec::new();
     let mut s = 0;
     for i in 0..n {
@@ -46,11 +46,11 @@ fn regions(n: usize) -> Vec<(usize, usize)> {
     v
 }
 
-fn top6(k: &Key) -> usize {
+pub(crate) fn top6(k: &Key) -> usize {
     (k[0] >> 2) as usize
 }
 
-fn set_top6(k: &mut Key, c: usize) {
+pub(crate) fn set_top6(k: &mut Key, c: usize) {
     k[0] = (k[0] & 3) | ((c as u8) << 2);
 }
 
@@ -70,11 +70,11 @@ fn key_in_child_t(rng: &mut Rng, c: usize, tail: usize) -> Key {
     k
 }
 
-fn has_prefix(k: &Key, p: &[bool]) -> bool {
+pub(crate) fn has_prefix(k: &Key, p: &[bool]) -> bool {
     p.iter().enumerate().all(|(i, b)| bit(k, i) == *b)
 }
 
-fn bits_string(p: &[bool]) -> String {
+pub(crate) fn bits_string(p: &[bool]) -> String {
     if p.is_empty() {
         "-".into()
     } else {
@@ -82,7 +82,7 @@ fn bits_string(p: &[bool]) -> String {
     }
 }
 
-fn six_bits(c: usize) -> Vec<bool> {
+pub(crate) fn six_bits(c: usize) -> Vec<bool> {
     (0..6).map(|i| (c >> (5 - i)) & 1 == 1).collect()
 }
 
@@ -98,7 +98,7 @@ fn gen_val(rng: &mut Rng) -> Val {
 }
 
 #[derive(Clone, Debug, PartialEq)]
-enum Kind {
+pub(crate) enum Kind {
     Read,
     Write(Option<Val>),
     ReadWrite(Option<Val>),
@@ -285,12 +285,12 @@ fn gen_ops(rng: &mut Rng, n: usize, case: &Case) -> Vec<(Key, Kind)> {
     acc.into_iter().collect()
 }
 
-fn view_hashes(m: &Map) -> Vec<(Key, [u8; 32])> {
+pub(crate) fn view_hashes(m: &Map) -> Vec<(Key, [u8; 32])> {
     m.iter().map(|(k, v)| (*k, vhash(v))).collect()
 }
 
 /// reference terminal position (prefix bits) of `key` in the trie of `kvs`
-fn ref_terminal(kvs: &[(Key, [u8; 32])], key: &Key) -> Vec<bool> {
+pub(crate) fn ref_terminal(kvs: &[(Key, [u8; 32])], key: &Key) -> Vec<bool> {
     let mut cur = kvs;
     let mut d = 0;
     while cur.len() > 1 {
@@ -322,7 +322,7 @@ fn restrict<'a>(kvs: &'a [(Key, [u8; 32])], p: &[bool]) -> &'a [(Key, [u8; 32])]
     &kvs[lo..hi]
 }
 
-fn ops_text(ops: &[(Key, Kind)]) -> String {
+pub(crate) fn ops_text(ops: &[(Key, Kind)]) -> String {
     if ops.is_empty() {
         return "-".into();
     }
@@ -517,6 +517,7 @@ fn one_update(rng: &mut Rng, n: usize, db: &Db, view: &Map, ops: &[(Key, Kind)],
             }
             Event::RootPage { shard, pending, new_root } => root_page = Some((*shard, pending.clone(), *new_root)),
             Event::Joined { shard: Some(s), .. } if *s < n => order.push(*s),
+            Event::Update { .. } | Event::Advance { .. } => {}
             _ => trace_ok = false,
         }
     }
@@ -784,7 +785,7 @@ fn one_update(rng: &mut Rng, n: usize, db: &Db, view: &Map, ops: &[(Key, Kind)],
 
 /// C06: the assembled witness against the real verifier (the oracle of `db.rs`, plus "every operation hangs
 /// under the path that covers its key"), and its canonical form for the `spec` line.
-fn check_witness(w: &nomt::Witness, n: usize, prev_root: [u8; 32], new_root: [u8; 32], view: &Map, ops: &[(Key, Kind)], out: &mut Sink) {
+pub(crate) fn check_witness(w: &nomt::Witness, n: usize, prev_root: [u8; 32], new_root: [u8; 32], view: &Map, ops: &[(Key, Kind)], out: &mut Sink) {
     use nomt::proof::{verify_update, PathUpdate};
     let np = w.path_proofs.len();
     let mut verified = Vec::new();
